@@ -218,6 +218,10 @@ def interface(Y, P=None, i=None, norm='linalg', ltr=False):
 
         if norm is not None:
             if norm.startswith('l'): # linalg
+                # (scaled first: the squares of tiny entries underflow)
+                s = np.max(np.abs(phi[k]))
+                if s > 0 and np.isfinite(s):
+                    phi[k] /= s
                 phi[k] /= np.linalg.norm(phi[k])
 
             if norm.startswith('n'): # natural
